@@ -233,7 +233,7 @@ KIDS_A = ("forall(i, Int, implies(0 <= i and i < len({k}), exists(j, Int, 0 <= j
 KIDS_B = ("forall(j, Int, implies(0 <= j and j < len(job.child_jobs) and job.child_jobs[j].call_hash != None and len(val(job.child_jobs[j].call_hash)) > 0, "
           "exists(i, Int, 0 <= i and i < len({k}) and {k}[i] == val(job.child_jobs[j].call_hash))))")
 KIDS = "(" + KIDS_A + ") and (" + KIDS_B + ")"
-G2 = {"rvh": Opt(STR), "rch": Opt(STR)}
+G2 = {"rvh": Opt(STR), "rch": Opt(STR), "tagged": BOOL}
 REC_BEFORE = ["arg1 == job.task.hash", "arg2 == val(job.args_hash)", "Some(arg5) == rvh", KIDS_A.format(k="arg6"), KIDS_B.format(k="arg6"), "arg0 == job.task.fullname"]
 sched_contracts = {
  "Backend.record_value": dict(where=f"{DB}:RedunBackendDb.record_value", params={"self": REF, "value": OBJ}, returns=STR, ensures=["result == vhash(value)"],
@@ -245,12 +245,13 @@ sched_contracts = {
  "Job.calc_subtree_tasks": dict(where=f"{S}:Job.calc_subtree_tasks", params={"self": REF}, returns=OBJ),
  "Scheduler._record_job_tags": dict(where=f"{S}:Scheduler._record_job_tags", params={"self": REF, "job": REF}),
  "Scheduler._resolve_job_main_thread": dict(where=f"{S}:Scheduler._resolve_job_main_thread", params={"self": REF, "job": REF, "result": OBJ}, ghost=G2,
-    requires=["rvh == None and rch == None", "job.args_hash != None"],
+    requires=["rvh == None and rch == None and not tagged", "job.args_hash != None"],
     lib={"self.type_registry.get_hash(": lambda e, n, st, old: e.ctx.app("vhash", [OBJ], STR, [e.to_obj(e.ev(n.args[0], st, old))]),
          "job.recording_provenance()": lambda e, n, st, old: e.ctx.app("recording", [REF], BOOL, [st.env["job"]])},
     before_call={("Backend.record_value", 0): ["arg0 == result"], ("Backend.record_call_node", 0): REC_BEFORE},
-    after_call={("Backend.record_value", 0): "rvh = Some(callresult)", ("Backend.record_call_node", 0): "rch = Some(callresult)"},
-    at_call={"record_job_end": ["arg0 == job", "job.call_hash != None"], "resolve": ["arg0 == result", "recv == job"]},
+    after_call={("Backend.record_value", 0): "rvh = Some(callresult)", ("Backend.record_call_node", 0): "rch = Some(callresult)", ("Scheduler._record_job_tags", "*"): "tagged = True"},
+    # every job that ends with provenance -- freshly run or served from the cache -- has its tags recorded before its end is recorded
+    at_call={"record_job_end": ["arg0 == job", "job.call_hash != None", "tagged"], "resolve": ["arg0 == result", "recv == job"]},
     must_call=["record_job_end", "record_call_node", "resolve"],
     ensures=[  # a job that was not a cache hit gets a call hash; with provenance it is the one record_call_node returned for the job's own task hash,
                # argument hash, recorded result hash and the call hashes of its children (the site conditions above)
@@ -259,12 +260,13 @@ sched_contracts = {
         "implies(old(job.call_hash), job.call_hash == old(job.call_hash))"]),
  "Scheduler._reject_job_main_thread": dict(where=f"{S}:Scheduler._reject_job_main_thread",
     params={"self": REF, "job": Opt(REF), "error": OBJ, "error_traceback": OBJ, "job_tags": OBJ}, ghost=G2,
-    requires=["rvh == None and rch == None", "implies(job != None, val(job).args_hash != None)"],
+    requires=["rvh == None and rch == None and not tagged", "implies(job != None, val(job).args_hash != None)"],
     lib={"job.recording_provenance()": lambda e, n, st, old: e.ctx.app("recording", [REF], BOOL, [unopt(st.env["job"])]),
          "ErrorValue(": lambda e, n, st, old: e.opaque("error_value")},
     before_call={("Backend.record_call_node", 0): [c.replace("job.", "val(job).") for c in REC_BEFORE]},
-    after_call={("Backend.record_value", 0): "rvh = Some(callresult)", ("Backend.record_value", 1): "rvh = Some(callresult)", ("Backend.record_call_node", 0): "rch = Some(callresult)"},
-    at_call={"record_job_end": ["arg0 == val(job)", "kw_status == 'FAILED'", "val(job).call_hash != None"], "reject": ["arg0 == error"]},
+    after_call={("Backend.record_value", 0): "rvh = Some(callresult)", ("Backend.record_value", 1): "rvh = Some(callresult)", ("Backend.record_call_node", 0): "rch = Some(callresult)",
+                ("Scheduler._record_job_tags", "*"): "tagged = True"},
+    at_call={"record_job_end": ["arg0 == val(job)", "kw_status == 'FAILED'", "val(job).call_hash != None", "tagged"], "reject": ["arg0 == error"]},
     must_call=["record_job_end", "record_call_node", "reject"], opaque_raises=False,
     ensures=["implies(job != None and recording(val(job)), val(job).call_hash == rch and rch != None)"]),
 }
